@@ -27,10 +27,11 @@ impl TryFrom<f64> for HFloat {
     type Error = ();
 
     fn try_from(value: f64) -> Result<Self, Self::Error> {
+        // Only values that a half float represents exactly may become an immediate: a
+        // literal such as 0.001 must not turn into 0.0010004 (and 1e-8 not into 0.0).
         let hv = f16::from_f64(value);
-        let error = (hv.to_f64() - value).abs();
-        if error < ALLOWED_ERROR {
-            Ok(Self(f16::from_f64(value)))
+        if hv.to_f64() == value {
+            Ok(Self(hv))
         } else {
             Err(())
         }
